@@ -6,9 +6,29 @@ from checks import _issues
 PROP = 'C20'
 
 
+def boundary_lines():
+    """line-length boundary family: code padded to every length around both configured maxima (79 and 20), followed
+    by every comment shape (none, bare '#', '#' + blanks, one word, long URL) and line ending"""
+    from harness.common import VERSIONS
+    out = []
+    comments = ['', '#', '#  ', '#x', '# word', '# two words', '# http://example.com/' + 'a' * 30, '#' + ' ' * 30]
+    heads = ['x = 1', 'value = compute()', '', 'def f(a): return a', 'foo(bar,']
+    k = 0
+    for mx in (20, 79):
+        for target in range(mx - 3, mx + 4):
+            for h in heads:
+                if len(h) > target:
+                    continue
+                for c in comments:
+                    for tail in ('\n', '', '\ny = 2\n'):
+                        out.append((h + ' ' * (target - len(h)) + c + tail, VERSIONS[k % 9]))
+                        k += 1
+    return out
+
+
 def run(tier):
     return _issues.run_issues(PROP, 'pep8', tier, 80000 if tier == 'thorough' else 12000,
-                              cfgs=('', 'i2', 'tab', 'short'), provenance=True)
+                              cfgs=('', 'i2', 'tab', 'short'), provenance=True, extra_every_cfg=boundary_lines())
 
 
 replay = _issues.replay
